@@ -823,7 +823,7 @@ mod v_wire_views {
     pub(crate) fn view_tcp() {
         tcp_view::<30>();
     }
-    // @harness props=C07,C03 cfg=KW tier=q to=1200 mem=8 unwind=10 opts=term covers=2 funcs=TcpPacket::selective_ack_permitted;TcpOption::parse bounds=any_bytes_len_0..=28_(<=8_option_bytes)
+    // @harness props=C07,C03 cfg=KW tier=t to=1800 mem=8 unwind=10 opts=term covers=2 funcs=TcpPacket::selective_ack_permitted;TcpOption::parse bounds=any_bytes_len_0..=28_(<=8_option_bytes)
     #[kani::proof]
     pub(crate) fn view_tcp_sack_permitted() {
         tcp_sack_permitted_view::<28>();
@@ -960,9 +960,8 @@ mod v_wire_views {
     }
 
     /// `shape`: option kinds and lengths; values, header and magic cookie symbolic; `bad` = (index, l): the
-    /// length octet of that option is written as `l` although the template reserves the shape's number of
-    /// value bytes (zero, short, oversized lengths; a symbolic `l` makes the rest of the list free-form
-    /// again: no answer in 30 min); `cut`: the buffer ends `cut` bytes before the end of the option list.
+    /// length octet of that option is written as `l` instead of the shape's (unused: see below);
+    /// `cut`: the buffer ends `cut` bytes before the end of the option list.
     fn dhcp_shape_view<const K: usize>(shape: [(u8, u8); K], bad: (usize, u8), cut: usize) -> (bool, bool, bool, bool) {
         let mut bytes = [0u8; 300];
         let hdr: [u8; 34] = kani::any();
@@ -1008,18 +1007,9 @@ mod v_wire_views {
         let r = dhcp_shape_view::<5>([(53, 1), (61, 7), (50, 4), (57, 2), (55, 3)], (99, 0), 0);
         kani::cover!(r.0 && r.3, "dhcp: client-shaped option list parsed");
     }
-    // zero / short / swallowing / oversized length octet in the middle of the list (one call per value)
-    // @harness props=C07,C03 cfg=KW tier=q to=900 mem=8 unwind=12 opts=term,fs300 covers=3 funcs=DhcpRepr::parse;DhcpPacket::options bounds=option_list_shape_53/1,6/L,51/4,pad,end_with_8_value_bytes_reserved_and_L_in_{0,3,11,255}
-    #[kani::proof]
-    pub(crate) fn view_dhcp_repr_shape_bad_len() {
-        let z = dhcp_shape_view::<3>([(53, 1), (6, 8), (51, 4)], (1, 0), 0);
-        let s3 = dhcp_shape_view::<3>([(53, 1), (6, 8), (51, 4)], (1, 3), 0);
-        let sw = dhcp_shape_view::<3>([(53, 1), (6, 8), (51, 4)], (1, 11), 0);
-        let ov = dhcp_shape_view::<3>([(53, 1), (6, 8), (51, 4)], (1, 255), 0);
-        kani::cover!(z.0 && z.1, "dhcp: zero-length DNS option accepted as empty list");
-        kani::cover!(sw.0 && sw.1 && !sw.2, "dhcp: DNS option whose length swallows the next option header");
-        kani::cover!(ov.0 && !ov.1 && !ov.2, "dhcp: oversized option ends the list");
-    }
+    // (A corrupted length octet in the middle of the list re-aligns the walk onto value bytes, i.e. makes
+    // the remainder free-form: neither symbolic nor case-split lengths finished within 30 min; that case
+    // is covered only up to 5 free option bytes by view_dhcp_repr_t and 6 by view_dhcp.)
     // truncated message: the buffer ends inside the last option
     // @harness props=C07,C03 cfg=KW tier=q to=600 mem=6 unwind=12 opts=term,fs300 covers=1 funcs=DhcpRepr::parse;DhcpPacket::options bounds=option_list_shape_53/1,51/4,6/8_cut_5_bytes_short
     #[kani::proof]
@@ -1031,7 +1021,7 @@ mod v_wire_views {
     // sname / boot-file strings: K leading bytes of each field symbolic, the remainder zero
     // (fs300: the 240-byte array is split into scalars, so the position() scan sees the zero tail as
     // constants and stops after K+1 steps instead of being unrolled 74/128 times)
-    // @harness props=C07 cfg=KW tier=q to=900 mem=8 unwind=10 opts=fs300 covers=2 funcs=DhcpPacket::get_sname;DhcpPacket::get_boot_file bounds=240-byte_packet;_first_6_bytes_of_sname_and_of_file_symbolic;_rest_zero
+    // @harness props=C07 cfg=KW tier=t to=1800 mem=8 unwind=10 opts=fs300 covers=2 funcs=DhcpPacket::get_sname;DhcpPacket::get_boot_file bounds=240-byte_packet;_first_6_bytes_of_sname_and_of_file_symbolic;_rest_zero
     #[kani::proof]
     pub(crate) fn view_dhcp_strings() {
         const K: usize = 6;
@@ -1149,7 +1139,7 @@ mod v_wire_views {
         dns_name_step_view::<64>();
     }
     // The first three steps of a real iteration, chained (state handed over by the iterator itself).
-    // @harness props=C07,C03 cfg=KW tier=q to=1200 mem=8 unwind=11 opts=term covers=1 funcs=DnsPacket::parse_name bounds=any_bytes_len_0..=16;_name_at_any_offset;_first_3_steps
+    // @harness props=C07,C03 cfg=KW tier=t to=1800 mem=8 unwind=11 opts=term covers=1 funcs=DnsPacket::parse_name bounds=any_bytes_len_0..=16;_name_at_any_offset;_first_3_steps
     #[kani::proof]
     pub(crate) fn view_dns_name_three_steps() {
         const N: usize = 16;
@@ -1437,7 +1427,7 @@ mod v_wire_views {
     // Nested printers.  The ICMPv4 -> IPv4 -> ICMPv4 ... recursion is bounded by the data (>= 28 bytes
     // per round) but symbolic execution follows it to the unwind bound, which the formatting loops of
     // core::fmt force to >= 10: the byte bounds are kept small.
-    // @harness props=C07 cfg=KW tier=q to=1500 mem=10 unwind=12 covers=2 funcs=PrettyPrinter::fmt;Icmpv4Packet::pretty_print;Icmpv4Packet::fmt;Icmpv4Repr::fmt;Ipv4Packet::pretty_print bounds=any_bytes_len_0..=36
+    // @harness props=C07 cfg=KW tier=t to=3600 mem=12 unwind=12 covers=2 funcs=PrettyPrinter::fmt;Icmpv4Packet::pretty_print;Icmpv4Packet::fmt;Icmpv4Repr::fmt;Ipv4Packet::pretty_print bounds=any_bytes_len_0..=36
     #[kani::proof]
     pub(crate) fn pp_icmpv4() {
         const N: usize = 36;
@@ -1449,7 +1439,7 @@ mod v_wire_views {
         kani::cover!(ok && len == N && bytes[0] == 3 && bytes[8] == 0x45 && bytes[10] == 0 && bytes[11] == 28, "pp icmpv4: printed destination unreachable with the embedded IPv4 header");
     }
 
-    // @harness props=C07 cfg=KW tier=q to=1500 mem=10 unwind=12 covers=2 funcs=PrettyPrinter::fmt;Ipv4Packet::pretty_print;Ipv4Repr::fmt;pretty_print_ip_payload;UdpRepr::fmt;TcpPacket::fmt;Icmpv4Packet::pretty_print bounds=any_bytes_len_0..=40
+    // @harness props=C07 cfg=KW tier=t to=3600 mem=12 unwind=12 covers=2 funcs=PrettyPrinter::fmt;Ipv4Packet::pretty_print;Ipv4Repr::fmt;pretty_print_ip_payload;UdpRepr::fmt;TcpPacket::fmt;Icmpv4Packet::pretty_print bounds=any_bytes_len_0..=40
     #[kani::proof]
     pub(crate) fn pp_ipv4() {
         const N: usize = 40;
@@ -1461,7 +1451,7 @@ mod v_wire_views {
         kani::cover!(ok && len == N && bytes[0] == 0x45 && bytes[9] == 6 && bytes[2] == 0 && bytes[3] == 40 && bytes[6] & 0x3f == 0 && bytes[7] == 0, "pp ipv4: reached the TCP printer");
     }
 
-    // @harness props=C07 cfg=KW tier=q to=1500 mem=10 unwind=12 covers=1 funcs=PrettyPrinter::fmt;Ipv6Packet::pretty_print;Ipv6Repr::fmt;pretty_print_ip_payload;UdpRepr::fmt bounds=any_bytes_len_0..=52
+    // @harness props=C07 cfg=KW tier=t to=3600 mem=12 unwind=12 covers=1 funcs=PrettyPrinter::fmt;Ipv6Packet::pretty_print;Ipv6Repr::fmt;pretty_print_ip_payload;UdpRepr::fmt bounds=any_bytes_len_0..=52
     #[kani::proof]
     pub(crate) fn pp_ipv6() {
         const N: usize = 52;
@@ -1472,7 +1462,7 @@ mod v_wire_views {
         kani::cover!(ok && len == N && bytes[0] == 0x60 && bytes[6] == 17 && bytes[4] == 0 && bytes[5] == 12 && bytes[42] == 1, "pp ipv6: printed a UDP datagram");
     }
 
-    // @harness props=C07 cfg=KW tier=q to=1500 mem=10 unwind=12 covers=2 funcs=PrettyPrinter::fmt;EthernetFrame::pretty_print;EthernetFrame::fmt;ArpPacket::pretty_print;Ipv4Packet::pretty_print;Ipv6Packet::pretty_print bounds=any_bytes_len_0..=42
+    // @harness props=C07 cfg=KW tier=t to=3600 mem=12 unwind=12 covers=2 funcs=PrettyPrinter::fmt;EthernetFrame::pretty_print;EthernetFrame::fmt;ArpPacket::pretty_print;Ipv4Packet::pretty_print;Ipv6Packet::pretty_print bounds=any_bytes_len_0..=42
     #[kani::proof]
     pub(crate) fn pp_ethernet() {
         const N: usize = 42;
